@@ -1066,7 +1066,16 @@ func (vm *VirtualMachine) importModule(ctx context.Context, name string) (*objec
 	// Restore the previous frame when done
 	defer vm.resumeFrame(baseFP, baseIP, baseSP)
 	// Evaluate the module code
-	if err := vm.eval(ctx); err != nil {
+	err = vm.eval(ctx)
+	// Nothing the module code left on the stack is a result of the import:
+	// not the value of a trailing expression statement, nor the operands
+	// that were pending if it failed. Drop it so that resumeFrame does not
+	// hand it to the importing code.
+	for i := vm.sp; i > baseSP; i-- {
+		vm.stack[i] = nil
+	}
+	vm.sp = baseSP
+	if err != nil {
 		return nil, err
 	}
 	module.UseGlobals(code.Globals)
